@@ -43,6 +43,27 @@ pub struct RunOutput {
 
 thread_local! {
     static LAST_PANIC: RefCell<Option<(String, String)>> = const { RefCell::new(None) };
+    /// Set by a scenario when everything it wanted to observe in the current execution has been observed and only
+    /// the tear-down of the simulated runtime remains. Cancelling tasks that are suspended in the middle of a poll lets
+    /// them run on against state another cancelled task left half-updated (exactly what a real runtime shutdown does);
+    /// a panic in that phase is an artefact of the shutdown, not a verdict.
+    pub static PHASE_DONE: std::cell::Cell<bool> = const { std::cell::Cell::new(false) };
+    /// Follow-up executions requested by the scenario (each runs in a fresh shuttle execution on this OS thread,
+    /// sharing the simulated disk, the history and the choice streams): e.g. one recovery per crash image.
+    pub static FOLLOW_UPS: RefCell<std::collections::VecDeque<FollowUp>> = RefCell::new(std::collections::VecDeque::new());
+}
+
+pub struct FollowUp {
+    pub label: String,
+    pub job: Box<dyn FnOnce() + Send + 'static>,
+}
+
+pub fn phase_done() {
+    PHASE_DONE.with(|p| p.set(true));
+}
+
+pub fn push_follow_up(label: String, job: Box<dyn FnOnce() + Send + 'static>) {
+    FOLLOW_UPS.with(|f| f.borrow_mut().push_back(FollowUp { label, job }));
 }
 
 /// Must be called once at process start (after a first shuttle execution installed shuttle's own hook, which we
@@ -69,6 +90,9 @@ pub fn install_panic_hook() {
         if debug {
             eprintln!("[fsim panic] {msg} at {loc}");
         }
+        if std::env::var("VERIF_BACKTRACE").is_ok() {
+            eprintln!("[fsim panic] {msg} at {loc}\n{}", std::backtrace::Backtrace::force_capture());
+        }
         LAST_PANIC.with(|p| {
             let mut p = p.borrow_mut();
             if p.is_none() {
@@ -76,6 +100,17 @@ pub fn install_panic_hook() {
             }
         });
     }));
+}
+
+fn add_stats(total: &mut SchedStats) {
+    sched::STATS.with(|s| {
+        let s = s.borrow();
+        total.steps += s.steps;
+        total.choice_points += s.choice_points;
+        total.switches += s.switches;
+        total.sched_hash = choice::mix2(total.sched_hash, s.sched_hash);
+        total.max_runnable = total.max_runnable.max(s.max_runnable);
+    });
 }
 
 fn dispatch(case: &Case) {
@@ -120,43 +155,78 @@ fn run_on_this_thread(input: RunInput) -> RunOutput {
     cfg.ungraceful_shutdown_config.immediately_return_on_panic = true;
 
     let case = input.case.clone();
-    let res = panic::catch_unwind(panic::AssertUnwindSafe(|| {
-        let case2 = case.clone();
-        shuttle::Runner::new(ChoiceScheduler::new(), cfg).run(move || dispatch(&case2));
-    }));
     let mut out = RunOutput::default();
     let prop = input.case.property.clone();
-    match res {
-        Ok(()) => {
-            // post-hoc oracles over the recorded history (outside the simulated execution)
-            let r = panic::catch_unwind(panic::AssertUnwindSafe(|| oracle(&input.case)));
-            if r.is_err() {
+    FOLLOW_UPS.with(|f| f.borrow_mut().clear());
+    let mut total_stats = SchedStats::default();
+    // classify the outcome of one execution; returns false if the run must stop
+    let mut classify = |res: std::thread::Result<()>, label: &str, out: &mut RunOutput| -> bool {
+        match res {
+            Ok(()) => true,
+            Err(_) => {
                 let (msg, loc) = LAST_PANIC.with(|p| p.borrow_mut().take()).unwrap_or_default();
-                out.harness_error = Some(format!("oracle panicked: {msg} at {loc}"));
+                if PHASE_DONE.with(|p| p.get()) {
+                    // tear-down artefact (see PHASE_DONE)
+                    hist::probe("panic_during_teardown_ignored");
+                    return true;
+                }
+                out.panic_msg = Some(format!("{msg} at {loc}"));
+                if msg.starts_with("deadlock!") {
+                    hist::violation(
+                        &prop,
+                        "deadlock",
+                        format!("{label}: all simulated tasks blocked: {}", msg.chars().take(400).collect::<String>()),
+                        &[],
+                    );
+                } else if msg.starts_with("exceeded max_steps") {
+                    hist::violation(&prop, "step-bound", format!("{label}: no completion within {max_steps} scheduling steps"), &[]);
+                } else if loc.starts_with("/repo/") {
+                    hist::violation(
+                        &prop,
+                        "repo-panic",
+                        format!("{label}: panic inside foyer: {} at {loc}", msg.chars().take(300).collect::<String>()),
+                        &[("at", loc.clone())],
+                    );
+                } else {
+                    out.harness_error = Some(format!("{label}: panic outside /repo: {msg} at {loc}"));
+                }
+                false
             }
         }
-        Err(_) => {
+    };
+    PHASE_DONE.with(|p| p.set(false));
+    let res = panic::catch_unwind(panic::AssertUnwindSafe(|| {
+        let case2 = case.clone();
+        shuttle::Runner::new(ChoiceScheduler::new(), cfg.clone()).run(move || dispatch(&case2));
+    }));
+    add_stats(&mut total_stats);
+    let mut go_on = classify(res, "workload", &mut out);
+    // follow-up executions (recoveries on crash / corrupted images, ...)
+    while go_on {
+        let Some(fu) = FOLLOW_UPS.with(|f| f.borrow_mut().pop_front()) else { break };
+        foyer_common::verif::reset();
+        foyer_common::spawn::Spawner::verif_reset();
+        crate::hybscn::reinstall_event_sink();
+        PHASE_DONE.with(|p| p.set(false));
+        // Runner::run wants Fn + Sync; the job runs exactly once (one execution per Runner)
+        let job = std::sync::Mutex::new(Some(fu.job));
+        let res = panic::catch_unwind(panic::AssertUnwindSafe(|| {
+            shuttle::Runner::new(ChoiceScheduler::new(), cfg.clone()).run(move || {
+                if let Some(j) = job.lock().unwrap().take() {
+                    j()
+                }
+            });
+        }));
+        add_stats(&mut total_stats);
+        go_on = classify(res, &fu.label, &mut out);
+    }
+    if go_on && out.harness_error.is_none() {
+        // post-hoc oracles over the recorded history (outside the simulated execution)
+        PHASE_DONE.with(|p| p.set(false));
+        let r = panic::catch_unwind(panic::AssertUnwindSafe(|| oracle(&input.case)));
+        if r.is_err() {
             let (msg, loc) = LAST_PANIC.with(|p| p.borrow_mut().take()).unwrap_or_default();
-            out.panic_msg = Some(format!("{msg} at {loc}"));
-            if msg.starts_with("deadlock!") {
-                hist::violation(
-                    &prop,
-                    "deadlock",
-                    format!("all simulated tasks blocked: {}", msg.chars().take(400).collect::<String>()),
-                    &[],
-                );
-            } else if msg.starts_with("exceeded max_steps") {
-                hist::violation(&prop, "step-bound", format!("no completion within {max_steps} scheduling steps"), &[]);
-            } else if loc.starts_with("/repo/") {
-                hist::violation(
-                    &prop,
-                    "repo-panic",
-                    format!("panic inside foyer: {} at {loc}", msg.chars().take(300).collect::<String>()),
-                    &[("at", loc.clone())],
-                );
-            } else {
-                out.harness_error = Some(format!("panic outside /repo: {msg} at {loc}"));
-            }
+            out.harness_error = Some(format!("oracle panicked: {msg} at {loc}"));
         }
     }
     let h = hist::take();
@@ -198,7 +268,7 @@ fn run_on_this_thread(input: RunInput) -> RunOutput {
     out.probes = h.probes.into_iter().map(|(k, v)| (k.to_string(), v)).collect();
     out.faults = h.faults.into_iter().map(|(k, v)| (k.to_string(), v)).collect();
     out.notes = h.notes;
-    out.stats = sched::STATS.with(|s| s.borrow().clone());
+    out.stats = total_stats;
     if let Some(s) = streams {
         out.sched_record = s.sched.record;
         out.io_record = s.io.record;
